@@ -23,6 +23,9 @@ type PairPlan struct {
 	Net      simnet.Config `json:"net"`
 	Leechers int           `json:"leechers"`
 	Bound    time.Duration `json:"bound"`
+	// Magnet: the leechers know only the info-hash and the seeder's address (x.pe): the seeder
+	// serves the metadata.
+	Magnet bool `json:"magnet,omitempty"`
 	// SeederDials: the seeder is given the leecher's address instead of the other way round
 	// (unused: a completed rain torrent does not dial).
 	SeederDials bool `json:"seeder_dials,omitempty"`
@@ -100,7 +103,11 @@ func RunPair(env *Env, plan *PairPlan) {
 		}
 		l := &leech{n: n, dir: n.TorrentDir("tt")}
 		n.In(func() {
-			l.tor, err = n.Sess.AddTorrent(bytes.NewReader(T.MetaBytes), &torrent.AddTorrentOptions{ID: "tt"})
+			if plan.Magnet {
+				l.tor, err = n.Sess.AddURI(buildMagnet(T.InfoHash, false, T.Name, nil, []string{addrA}), &torrent.AddTorrentOptions{ID: "tt"})
+			} else {
+				l.tor, err = n.Sess.AddTorrent(bytes.NewReader(T.MetaBytes), &torrent.AddTorrentOptions{ID: "tt"})
+			}
 		})
 		if err != nil {
 			simrt.Violate("C10", "add.rejected", "valid torrent rejected: %v", err)
@@ -258,7 +265,12 @@ func RunPair(env *Env, plan *PairPlan) {
 func init() {
 	Register(&Scenario{Name: "pair", Gen: func(r *simrt.Rand, tier string, p *Plan) {
 		o := gen.GenOpts{MaxPieces: 12, MaxPieceLen: 64 << 10, AllowPad: true}
-		pp := &PairPlan{Layout: gen.RandomLayout(r, o), Net: netCfg(r), Leechers: simrt.Pick(r, []int{1, 1, 2}), Bound: 20 * time.Minute, SeederDials: false}
+		lay := gen.RandomLayout(r, o)
+		if r.Chance(0.2) {
+			lay = manyFilesLayout(r)
+		}
+		pp := &PairPlan{Layout: lay, Net: netCfg(r), Leechers: simrt.Pick(r, []int{1, 1, 2}), Bound: 20 * time.Minute, SeederDials: false}
+		pp.Magnet = r.Chance(0.35)
 		pp.Net.FragMode = simrt.Pick(r, []int{0, 1, 1, 2})
 		pp.Net.ShortReadP = r.Float()
 		// encryption policies, each side drawn on its own ('disable' and 'force' never both)
